@@ -211,6 +211,26 @@ def op_text(model, sg, op, kind):
         g0.append(faf)
         g = [g0, ms, shs]
         ins = ins[:3] + [-1] * (3 - len(ins[:3]))
+    elif kind == "TRANSPOSE_CONV":
+        w, x, o = T[ins[1]], T[ins[2]], T[outs[0]]
+        oshape = const_ints(model, T[ins[0]])
+        if oshape is None or list(oshape) != list(o["shape"]):
+            raise NotSimulated("TRANSPOSE_CONV:dynamic_output_shape")
+        sx, _ = one_scale(x, kind)
+        so, _ = one_scale(o, kind)
+        ws, wz = qparams(w)
+        nch = w["shape"][0]
+        if len(ws) not in (1, nch) or (len(ws) > 1 and any(z != 0 for z in wz)) or tensor_data(model, w) is None:
+            raise NotSimulated("TRANSPOSE_CONV:weights")
+        ms, shs = [], []
+        for c in range(nch):
+            wsc = ws[c] if len(ws) > 1 else ws[0]
+            real = (np.float64(f32(sx * wsc)) if x["type"] == "uint8" else np.float64(sx) * np.float64(wsc)) / np.float64(so)
+            m, s = quantize_multiplier(real)
+            ms.append(m)
+            shs.append(s)
+        g = [[opt(op, 2, "i", 0), opt(op, 1, "i", 0), 1 if opt(op, 0, "b", 0) == 0 else 0], ms, shs]
+        ins = [ins[1], ins[2], ins[3] if len(ins) > 3 else -1]
     elif kind == "FULLY_CONNECTED":
         x, w, o = T[ins[0]], T[ins[1]], T[outs[0]]
         faf = opt(op, 0, "b", 0)
@@ -270,6 +290,26 @@ def op_text(model, sg, op, kind):
         ma, sa = quantize_multiplier(np.float64(f32(f32(si * alpha) / so)))
         mi, s_i = quantize_multiplier(np.float64(f32(si / so)))
         g = [[mi, s_i, ma, sa, f32bits(alpha)]]
+    elif kind in ("RESIZE_BILINEAR", "RESIZE_NEAREST_NEIGHBOR"):
+        size = const_ints(model, T[ins[1]])
+        o = T[outs[0]]
+        if size is None or list(size) != list(o["shape"][1:3]):
+            raise NotSimulated(f"{kind}:dynamic_size")
+        if qparams(T[ins[0]]) != qparams(o):
+            raise NotSimulated(f"{kind}:quantisation_differs")
+        # ResizeBilinearOptions: align_corners slot 2, half_pixel_centers slot 3; ResizeNearestNeighborOptions: slots 0, 1
+        a, h = (opt(op, 2, "B", 0), opt(op, 3, "B", 0)) if kind == "RESIZE_BILINEAR" else (opt(op, 0, "B", 0), opt(op, 1, "B", 0))
+        g = [[int(a), int(h)]]
+        ins = ins[:1]
+    elif kind == "MEAN":
+        axes = const_ints(model, T[ins[1]])
+        if axes is None:
+            raise NotSimulated("MEAN:dynamic_axes")
+        rank = len(T[ins[0]]["shape"])
+        one_scale(T[ins[0]], kind)
+        one_scale(T[outs[0]], kind)
+        g = [[a + rank if a < 0 else a for a in axes]]
+        ins = ins[:1]
     elif kind in ("LOGISTIC", "TANH"):
         one_scale(T[ins[0]], kind)
         one_scale(T[outs[0]], kind)
